@@ -138,7 +138,7 @@ type hoOp struct {
 func clientHandoff(s *simrt.Sim, info *harness.RunInfo) {
 	faults := s.Chance(400)
 	info.Faults = faults
-	ntasks := s.Range(2, 5)
+	ntasks := s.Range(2, harness.Scale(5, 8))
 	cliTimeout := simrt.PickS(s, 0, 2*time.Second, time.Second)
 	useRetry := s.Chance(250)
 	preempt := simrt.PickS(s, 150, 400, 50, 0)
@@ -325,7 +325,7 @@ func clientJar(s *simrt.Sim, info *harness.RunInfo) {
 	paths := []string{"/", "/a", "/a/b", "/c"}
 	reqPaths := []string{"/", "/a", "/a/b", "/a/b/x", "/c", "/d"}
 	names := []string{"n0", "n1", "n2"}
-	nops := s.Range(3, 25)
+	nops := s.Range(3, harness.Scale(25, 50))
 	cfgLine := fmt.Sprintf("jar hosts=%d ops=%d", len(hosts), nops)
 	s.Logf("cfg %s", cfgLine)
 
